@@ -32,7 +32,9 @@ func NewFeatureRemote(id uint, entity api.EntityRemoteInterface, ftype model.Fea
 		entity:          entity,
 		functionDataMap: make(map[model.FunctionType]api.FunctionDataInterface),
 	}
-	for _, fd := range CreateFunctionData[api.FunctionDataInterface](ftype) {
+	// the type is announced by the remote device and may be one without
+	// known functions, such a feature simply holds no function data
+	for _, fd := range functionDataForFeatureType[api.FunctionDataInterface](ftype) {
 		res.functionDataMap[fd.FunctionType()] = fd
 	}
 
